@@ -29,6 +29,7 @@
 import TypedpyModel.Lemmas.Stub
 import TypedpyModel.Lemmas.StubSort
 import TypedpyModel.Lemmas.StubText
+import TypedpyModel.Lemmas.StubDefine
 namespace Typedpy.C16
 open Typedpy.Stub
 
@@ -144,7 +145,7 @@ theorem stub_kw_iff (dflt : Bool) (c : ClassInfo) :
     (stubInit dflt dflt c).kw = (runtimeAdmitsExtra dflt c || inheritedAddlOn dflt c) := by
   cases c with
   | mk d bases =>
-    simp only [stubInit, stubKw, runtimeAdmitsExtra, setattrAllows, inheritedAddlOn, runtimeSig, sigOf,
+    simp only [stubInit, stubKw, runtimeAdmitsExtra, setattrAllows, inheritedAddlOn, runtimeSig, Stub.sigOf,
       makeSignature, mro, addlLookup, ClassInfo.decl]
     cases hd : d.addl with
     | some b => cases b <;> simp
@@ -165,7 +166,7 @@ theorem stub_kw_disagree (dflt : Bool) (c : ClassInfo) (hx : inheritedAddlOn dfl
   cases c with
   | mk d bases =>
     simp only [inheritedAddlOn, ClassInfo.decl, Bool.and_eq_true, Bool.not_eq_true', Option.isNone_iff_eq_none] at hx
-    simp [runtimeAdmitsExtra, runtimeSig, sigOf, makeSignature, hx.1.1, hx.1.2]
+    simp [runtimeAdmitsExtra, runtimeSig, Stub.sigOf, makeSignature, hx.1.1, hx.1.2]
 
 /-! ### `**kw` vs the `**kwargs` of `__signature__` -/
 
@@ -175,7 +176,7 @@ theorem stub_sigkw_iff (dflt : Bool) (c : ClassInfo) :
     ((stubInit dflt dflt c).kw == (runtimeSig dflt c).kw) = !(inheritedAddlOn dflt c || inheritedAddlOff dflt c) := by
   cases c with
   | mk d bases =>
-    simp only [stubInit, stubKw, inheritedAddlOn, inheritedAddlOff, runtimeSig, sigOf,
+    simp only [stubInit, stubKw, inheritedAddlOn, inheritedAddlOff, runtimeSig, Stub.sigOf,
       makeSignature, mro, addlLookup, ClassInfo.decl]
     cases hd : d.addl with
     | some b => cases b <;> cases dflt <;> simp
@@ -189,7 +190,7 @@ theorem sig_kwargs_not_admitted_iff (dflt : Bool) (c : ClassInfo) :
     ((runtimeSig dflt c).kw && !runtimeAdmitsExtra dflt c) = inheritedAddlOff dflt c := by
   cases c with
   | mk d bases =>
-    simp only [runtimeAdmitsExtra, setattrAllows, inheritedAddlOff, runtimeSig, sigOf,
+    simp only [runtimeAdmitsExtra, setattrAllows, inheritedAddlOff, runtimeSig, Stub.sigOf,
       makeSignature, mro, addlLookup, ClassInfo.decl]
     cases hd : d.addl with
     | some b => cases b <;> cases dflt <;> simp
@@ -392,7 +393,7 @@ theorem stub_helper_text_parses (dflt apd : Bool) (c : ClassInfo) (anns : String
 
 /-- the parameter order rule holds of the text for ANY parameter table with mandatory parameters first (this is the
     statement the Define-based model below re-uses) -/
-theorem init_text_parses_of_mandatory_first (anns : String → Ann) (s : Sig)
+theorem init_text_parses_of_mandatory_first (anns : String → Ann) (s : Stub.Sig)
     (hm : mandatoryFirst s.params = true) (h : textDomain anns s.params = true) :
     parseDef (initToks anns s) = some ⟨"__init__", ⟨"self", .pk, false⟩ :: (s.params.map pkInfo ++ kwInfos s.kw)⟩ :=
   c16_init_parses anns s hm h
@@ -488,6 +489,107 @@ theorem parse_rejects_examples :
     -- and a positional-only marker is read back
     (lexPy "def f(a, /, b=None, *args, c, **kw) -> dict[str, int]: ...").bind parseDef =
       some ⟨"f", [⟨"a", .po, false⟩, ⟨"b", .pk, true⟩, ⟨"args", .va, false⟩, ⟨"c", .ko, false⟩, ⟨"kw", .vk, false⟩]⟩ := by
+  decide
+
+/-! ### both sides as models of code: the stub generator over the class objects of Sem/Define.lean
+
+  `Sem/StubDefine.lean` reads `_field_by_name`, `_constants`, `_required` and the inherited `_additional_properties`
+  off the class object that `Sem/Define.build` creates — Define's `make_signature` / `get_base_info` / C3 linearisation
+  (the model C12/C14 prove things about and the `define` suite corresponds) IS the runtime side.  The statements
+  below are one-step facts: they hold for EVERY world `w` and EVERY class source `src`, hence for every hierarchy
+  shape (several bases, shared ancestors, diamonds), with no reachability hypothesis. -/
+
+open Typedpy.StubD
+
+/-- keyword names of the stub `__init__` = names of Define's runtime signature, exactly when every non-constant
+    name of `_field_by_name` is one `make_signature` draws from (`namesCovered`, decidable, evaluated per case) -/
+theorem stubD_names_agree_iff (apd : Bool) (w : World) (src : ClassSrc) :
+    (∀ n, n ∈ (stubInitD apd w src).params.map (·.name) ↔ n ∈ (sigParamsD (Typedpy.sigOf w src)).map (·.name)) ↔
+      namesCovered w src = true :=
+  c16_names_agree_iff w src
+
+/-- a stub parameter lacks a default exactly when Define's signature lists the name as required — for every world,
+    on the names both sides know -/
+theorem stubD_required_agree (apd : Bool) (w : World) (src : ClassSrc) (n : String)
+    (hcov : covered w src n = true) (hk : n ∈ (allFieldsOf w src).map (·.1)) :
+    (⟨n, false⟩ : Param) ∈ (stubInitD apd w src).params ↔ n ∈ (Typedpy.sigOf w src).req :=
+  c16_stubD_required w src n hcov hk
+
+/-- the `**` clause over Define's worlds: same exact characterisation as `stub_kw_iff` -/
+theorem stubD_kw_iff (dflt : Bool) (w : World) (src : ClassSrc) :
+    (stubInitD dflt w src).kw = (admitsD dflt w src || inheritedOnD dflt w src) :=
+  c16_stubD_kw_iff dflt w src
+
+theorem stubD_sigkw_iff (dflt : Bool) (w : World) (src : ClassSrc) :
+    ((stubInitD dflt w src).kw == sigKwD dflt src) = !(inheritedOnD dflt w src || inheritedOffD dflt w src) :=
+  c16_stubD_sigkw_iff dflt w src
+
+/-- with the shipped default the `**kwargs` compared above is literally Define's `sig.kwargs` -/
+theorem stubD_sigkw_is_define (w : World) (src : ClassSrc) : sigKwD true src = (build w src).sig.kwargs := rfl
+
+theorem stubD_mandatory_first (apd : Bool) (w : World) (src : ClassSrc) :
+    mandatoryFirst (stubInitD apd w src).params = true := by
+  show mandatoryFirst (orderedArgs _) = true
+  unfold orderedArgs
+  apply mandatoryFirst_append
+  · intro p hp; simpa using (List.mem_filter.mp hp).2
+  · intro p hp; simpa using (List.mem_filter.mp hp).2
+
+/-- the generated `__init__` parses for every class of every world (diamonds included) -/
+theorem stubD_init_text_parses (apd : Bool) (w : World) (src : ClassSrc) (anns : String → Ann)
+    (h : textDomain anns (stubInitD apd w src).params = true) :
+    parseDef (initToks anns (stubInitD apd w src)) =
+      some ⟨"__init__", ⟨"self", .pk, false⟩ ::
+        ((stubInitD apd w src).params.map pkInfo ++ kwInfos (stubInitD apd w src).kw)⟩ :=
+  c16_init_parses anns _ (stubD_mandatory_first apd w src) h
+
+/-! #### kernel-checked diamonds -/
+
+def dFld (n : String) (d : Bool := false) : String × SrcEntry :=
+  (n, .obj (.field .anything (if d then some (.lit (.int 0)) else none)))
+def dCst (n : String) : String × SrcEntry := (n, .obj (.const (.int 3)))
+
+def defAll : World → List ClassSrc → World
+  | w, [] => w
+  | w, s :: rest => defAll (w.add (build w s)) rest
+
+/-- `class A: x, a; _optional = ['x']` / `class B(A): b` / `class C(A): x (required again), c = default;
+    _additional_properties = False` / `class D(B, C): d` — a benign diamond: MRO `D B C A` (C3); `get_base_info` takes
+    `x` from the first base that has it (`B`: optional); stub and signature agree on names and defaults; the `**`
+    clause is in the `inheritedAddlOff` region -/
+def dmA : ClassSrc := { name := "A", bases := ["Structure"], entries := [dFld "x", dFld "a"], optional := ["x"] }
+def dmB : ClassSrc := { name := "B", bases := ["A"], entries := [dFld "b"] }
+def dmC : ClassSrc := { name := "C", bases := ["A"], entries := [dFld "x", dFld "c" true], addl := some false }
+def dmD : ClassSrc := { name := "D", bases := ["B", "C"], entries := [dFld "d"] }
+def dmW : World := defAll World.init [dmA, dmB, dmC]
+
+theorem stubD_diamond_example :
+    (build dmW dmD).mro = ["D", "B", "C", "A", "Structure"] ∧
+    (stubInitD true dmW dmD).params = [⟨"a", false⟩, ⟨"b", false⟩, ⟨"d", false⟩, ⟨"x", true⟩, ⟨"c", true⟩] ∧
+    (Typedpy.sigOf dmW dmD).req = ["a", "b", "d"] ∧ (Typedpy.sigOf dmW dmD).opt = ["x", "c"] ∧
+    namesCovered dmW dmD = true ∧
+    (stubInitD true dmW dmD).kw = false ∧ sigKwD true dmD = true ∧ inheritedOffD true dmW dmD = true := by
+  decide
+
+/-- `class Y: n = Constant(3), y` / `class P(Y): p` / `class Z(Y): n: String, z` / `class B(P, Z): b` /
+    `class D(B): d`: `B` takes `n` for a constant (the `getattr` inside `StructMeta.__new__` answers from `P`'s
+    `_field_by_name`), so `B.__signature__` has no `n`; `D` resolves `n` to `Z`'s Field, so the stub of `D` has the
+    keyword `n` while `D.__signature__`, built from `B`'s, has not: finding "names-mismatch:constant-shadowed-in-diamond"
+    (reproduced on the real code by the `stub` suite, `diamond_cases`) -/
+def dqY : ClassSrc := { name := "Y", bases := ["Structure"], entries := [dCst "n", dFld "y"] }
+def dqP : ClassSrc := { name := "P", bases := ["Y"], entries := [dFld "p"] }
+def dqZ : ClassSrc := { name := "Z", bases := ["Y"], entries := [dFld "n", dFld "z"] }
+def dqB : ClassSrc := { name := "B", bases := ["P", "Z"], entries := [dFld "b"] }
+def dqD : ClassSrc := { name := "D", bases := ["B"], entries := [dFld "d"] }
+def dqW : World := defAll World.init [dqY, dqP, dqZ, dqB]
+
+theorem diamond_names_counterexample :
+    namesCovered dqW dqD = false ∧
+    "n" ∈ (stubInitD true dqW dqD).params.map (·.name) ∧ "n" ∉ (sigParamsD (Typedpy.sigOf dqW dqD)).map (·.name) ∧
+    ¬ (∀ n, n ∈ (stubInitD true dqW dqD).params.map (·.name) ↔ n ∈ (sigParamsD (Typedpy.sigOf dqW dqD)).map (·.name)) := by
+  refine ⟨by decide, by decide, by decide, fun h => ?_⟩
+  have := (stubD_names_agree_iff true dqW dqD).mp h
+  revert this
   decide
 
 end Typedpy.C16
